@@ -53,7 +53,14 @@ def strategy():
                          st.sampled_from(['', ':a']),
                          st.sampled_from(['k', 'j']), mdv).map(list),
                min_size=2, max_size=4)).map(list)
+  # one call with many entries (a batch larger than any chunk size a server
+  # might use internally): still one transaction
+  wide_md = st.just(['update_md', 'o0', 's0',
+                     [['study', '', 'k', 'v']] +
+                     [[t, '', 'k%d' % i, 'v'] for i in range(45)
+                      for t in (1, 2, 3)]])
   victim = st.one_of(general, general, general, general, general, multi_md,
+                     wide_md,
                      st.tuples(st.just('create_study'), st.just('o0'),
                                st.sampled_from(['s0', 's1'])).map(list),
                      st.just(['delete_study', 'o0', 's0']),
